@@ -49,6 +49,9 @@ pub struct TlCase {
     /// call cancel_running_future() on the builder before the timeout setter instead of after it
     #[serde(default)]
     pub cancel_first: bool,
+    /// the callers keep the resolved response future alive for this long before dropping it
+    #[serde(default)]
+    pub hold: Option<u64>,
     pub calls: Vec<TlCall>,
     pub order: Vec<u8>,
 }
@@ -92,15 +95,20 @@ fn case_strategy(_tier: Tier) -> BoxedStrategy<TlCase> {
         any::<bool>(),
         prop::collection::vec(call, 1..=5),
         prop::collection::vec(any::<u8>(), 0..=24),
-        (prop::bool::weighted(0.06), any::<bool>()),
+        (
+            prop::bool::weighted(0.06),
+            any::<bool>(),
+            prop_oneof![2 => Just(None), 1 => (1u64..=40).prop_map(Some)],
+        ),
     )
-        .prop_map(|(timeout, per_request, cancel, drop_service, calls, order, (huge_timeout, cancel_first))| TlCase {
+        .prop_map(|(timeout, per_request, cancel, drop_service, calls, order, (huge_timeout, cancel_first, hold))| TlCase {
             timeout,
             per_request: per_request && !huge_timeout,
             cancel,
             drop_service,
             huge_timeout,
             cancel_first,
+            hold,
             calls,
             order,
         })
@@ -204,7 +212,7 @@ async fn interp(case: &TlCase) -> Verdict {
             let _ = svc.poll_ready(&mut std::task::Context::from_waker(
                 futures::task::noop_waker_ref(),
             ));
-            svc.call(req)
+            Box::pin(svc.call(req)) as Fut
         })
     } else {
         let fixed = if case.huge_timeout {
@@ -228,7 +236,7 @@ async fn interp(case: &TlCase) -> Verdict {
             let _ = svc.poll_ready(&mut std::task::Context::from_waker(
                 futures::task::noop_waker_ref(),
             ));
-            svc.call(req)
+            Box::pin(svc.call(req)) as Fut
         })
     });
     let last_arrival = case.calls.iter().map(|c| c.at).max().unwrap_or(0);
@@ -241,7 +249,9 @@ async fn interp(case: &TlCase) -> Verdict {
         })
         .max()
         .unwrap_or(0)
-        + 5;
+        + 5
+        + case.hold.unwrap_or(0);
+    sim.hold_resolved_ms = case.hold;
     for t in 0..=horizon {
         if t > 0 {
             sim.begin_instant().await;
@@ -431,6 +441,9 @@ async fn interp(case: &TlCase) -> Verdict {
     }
     if case.huge_timeout {
         classes.push("timeout_duration_max");
+    }
+    if case.hold.is_some() {
+        classes.push("resolved_future_kept_alive");
     }
     Verdict {
         violations,
